@@ -10,6 +10,10 @@ Coq model.  Kinds of cases:
   log    _DefaultLogGenerator(branch, **make_log_request_dict(...)).iter_log_revisions():
          the (revision, revno, merge_depth) sequence for (start, end) ranges, both
          directions, levels 0/1/2, limits, exclude_common_ancestry
+  file   (oracle only, no model) the per-file clause: on linear histories of 12-30 revisions
+         with a file that is modified and renamed (long enough to cross the batch boundaries
+         9, 22 of make_log_rev_iterator) the log of that file by delta matching
+         (_match_using_deltas=True) and by the per-file graph (False), both directions
 """
 import daglib
 import msortlib
@@ -134,6 +138,13 @@ def _cases_for(rng, g, tier):
             s, e = rng.choice(pool), rng.choice(pool)
             yield _log_case(g, tip, s, e, rng.random() < 0.4, rng.choice([0, 0, 1, 1, 2]),
                             rng.choice([0, 0, 0, 1, 2, 5]), rng.random() < 0.15 and s is not None and e is not None)
+        # a walk that starts at a nested revision (the running depth adjustment), in
+        # particular at a merged revision that is itself a merge
+        for x, d, _rv, _e in ms:
+            if d >= 1 and (len(g[x]) > 1 or rng.random() < 0.3):
+                yield _log_case(g, tip, None, x, False, 0, 0, False)
+                if rng.random() < 0.3:
+                    yield _log_case(g, tip, None, x, True, 0, 0, False)
         # two merged revisions with the same base (the _is_obvious_ancestor shortcut)
         dotted = [(x, rv) for x, _d, rv, _e in ms if len(rv) == 3]
         same_base = [(a, b) for a, ra in dotted for b, rb in dotted if a != b and ra[0] == rb[0]]
@@ -148,14 +159,42 @@ def _cases_for(rng, g, tier):
     yield _log_case(g, None, None, None, False, 0, 0, False)
 
 
+def _file_case(rng, n, forward, target="f", deltas_first=True):
+    """A linear history r0..r(n-1): r0 adds the file f0 and another file o; every later revision
+    either modifies the tracked file, renames it (f0 -> f1 -> ...) or modifies o."""
+    ev = [["add"]]
+    for i in range(1, n):
+        x = rng.random()
+        ev.append(["ren"] if x < 0.12 else ["mod"] if x < 0.45 else ["other"])
+    return {"kind": "file", "n": n, "events": ev, "forward": forward, "target": target}
+
+
+def _file_cases(rng, tier):
+    # fixed: a rename right before / right after the first batch boundary (9 revisions from the tip)
+    for n, ren_at in ((14, 4), (14, 5), (14, 6), (26, 3), (26, 4), (26, 16)):
+        ev = [["add"]] + [["mod"] if i % 3 == 1 else ["other"] for i in range(1, n)]
+        ev[ren_at] = ["ren"]
+        for fw in (False, True):
+            yield {"kind": "file", "n": n, "events": ev, "forward": fw, "target": "f"}
+    for _ in range(10 if tier == "quick" else 80):
+        n = rng.randint(12, 30)
+        c = _file_case(rng, n, False)
+        yield c
+        if rng.random() < 0.5:
+            yield dict(c, forward=True)
+        if rng.random() < 0.3:
+            yield dict(c, target="o", forward=rng.random() < 0.5)
+
+
 def corpus():
     g = [list(ps) for ps in msortlib.FIXED[0]]
-    # the finding witness: 1.1.1 .. 1.2.1 at level 1 (r3 .. r4 of the first fixed history)
+    # regression inputs of the two repaired findings (must PASS now):
+    # C25-start-not-linear-leak (a31cbfe): 1.1.1 .. 1.2.1 at level 1 (r3 .. r4 of the first fixed history)
     g2 = [list(ps) for ps in msortlib.FIXED[1]]
     return [_log_case(g, 6, 3, 4, False, 1, 0, False),
             _log_case(g, 6, 3, 4, False, 0, 0, False),
             _log_case(g, 6, 3, 4, True, 1, 0, False),
-            # C25-open-end-valueerror: a start revision, an open end, the delayed-graph path
+            # C25-open-end-valueerror (036aad8): a start revision, an open end, the delayed-graph path
             _log_case(g2, 8, 4, None, True, 1, 0, False),
             _log_case(g2, 8, 4, None, False, 0, 0, False),
             # the same ranges with the end given: fine
@@ -165,6 +204,7 @@ def corpus():
 
 def cases(rng, tier):
     yield from _rbd_cases(rng, tier)
+    yield from _file_cases(rng, tier)
     for g in _graphs(rng, tier):
         yield from _cases_for(rng, g, tier)
 
@@ -213,6 +253,8 @@ def impl(inp):
         return [[[i, d] for i, _s, d in once],
                 [[i, d] for i, _s, d in log._rebase_merge_depth(list(l))],
                 [[i, d] for i, _s, d in log.reverse_by_depth(list(once))]]
+    if inp["kind"] == "file":
+        return _impl_file(inp)
     g = inp["g"]
     br = _state["h"].at_tip(g, inp["tip"])
     s = None if inp["start"] is None else rid(inp["start"])
@@ -235,6 +277,47 @@ def impl(inp):
                         lambda lr: [idx(lr.rev.revision_id), _revno_list(lr.revno), lr.merge_depth])
 
 
+def _file_history(inp):
+    """(graph, BranchBuilder actions per revision, name of the tracked file at the tip, touching revisions)"""
+    n = inp["n"]
+    g = [[]] + [[i] for i in range(n - 1)]
+    extra, k, touched = {}, 0, []
+    for i, ev in enumerate(inp["events"]):
+        if ev[0] == "add":
+            extra[i] = [("add", ("f0", b"f-id", "file", b"0\n")), ("add", ("o", b"o-id", "file", b"0\n"))]
+            touched.append(i)
+        elif ev[0] == "ren":
+            extra[i] = [("rename", ("f%d" % k, "f%d" % (k + 1)))]
+            k += 1
+            touched.append(i)
+        elif ev[0] == "mod":
+            extra[i] = [("modify", ("f%d" % k, b"%d\n" % i))]
+            touched.append(i)
+        else:
+            extra[i] = [("modify", ("o", b"%d\n" % i))]
+    return g, extra, "f%d" % k, touched
+
+
+def _impl_file(inp):
+    from breezy import log
+    g, extra, name, _t = _file_history(inp)
+    br = _state["h"].at_tip(g, inp["n"] - 1, extra=extra)
+    path = name if inp["target"] == "f" else "o"
+    out = []
+    for deltas in (True, False):
+        with br.lock_read():
+            rq = log.make_log_request_dict(direction="forward" if inp["forward"] else "reverse",
+                                           specific_files=[path], levels=1, _match_using_deltas=deltas)
+            gen = log._DefaultLogGenerator(br, **rq)
+            try:
+                out.append([idx(lr.rev.revision_id) for lr in gen.iter_log_revisions()])
+            except Exception as e:
+                if type(e).__name__ != "NoSuchFile":
+                    raise
+                out.append(Err("NoSuchFile"))
+    return out
+
+
 # ---- model term -----------------------------------------------------------------------------------
 
 def _o(v):
@@ -242,6 +325,8 @@ def _o(v):
 
 
 def model_term(inp):
+    if inp["kind"] == "file":
+        return None            # the per-file filters are not modelled: oracle only
     if inp["kind"] == "rbd":
         return "run_rbd " + coq_list([f"({i}, {d})" for i, d in inp["l"]])
     g = daglib.coq_dag(inp["g"])
@@ -304,6 +389,18 @@ def oracle(inp, obs):
             if l[0][1] and l[-1][1] and min(d for _i, d in rebased) != 0:
                 return "_rebase_merge_depth leaves the top level above 0"
         return None
+    if inp["kind"] == "file":
+        by_deltas, by_graph = obs
+        _g, _extra, _name, touched = _file_history(inp)
+        if inp["target"] == "o":
+            touched = [i for i, ev in enumerate(inp["events"]) if ev[0] in ("add", "other")]
+        want = touched if inp["forward"] else touched[::-1]
+        for how, got in (("delta matching", by_deltas), ("the per-file graph", by_graph)):
+            if isinstance(got, Err):
+                return f"per-file log by {how} fails with {got}; the file was touched by {want}"
+            if got != want:
+                return f"per-file log by {how} lists {got}, the revisions that touched the file are {want}"
+        return None
     items, err = obs
     if err is not None and str(err) == "_StartNotLinearAncestor":
         return "the internal _StartNotLinearAncestor exception escapes from the log generator"
@@ -324,6 +421,15 @@ def oracle(inp, obs):
     for x, rv, d in items:
         if x in info and rv != info[x][0]:
             return f"revision {x} is listed with revno {rv}, its dotted revno is {info[x][0]}"
+    if (not inp["forward"] and inp["levels"] == 0 and all(x in info for x, _rv, _d in items)):
+        # a reverse log shows every revision at its depth relative to the shallowest
+        # revision listed so far (a walk that starts inside a merge is shifted to the left)
+        low = None
+        for x, _rv, d in items:
+            low = info[x][1] if low is None else min(low, info[x][1])
+            if d != info[x][1] - low:
+                return (f"revision {x} (merge depth {info[x][1]}) is shown at depth {d}; the shallowest "
+                        f"revision so far has depth {low}")
     if err is not None or inp["limit"] or inp["excl"]:
         return None
     ml = [] if tip is None else daglib.lefthand(g, tip)
@@ -360,39 +466,18 @@ def oracle(inp, obs):
     return None
 
 
-def _same_base_different_branch(inp):
-    rm = msortlib.revno_map(inp["g"], inp["tip"])
-    a, b = rm.get(inp["start"]), rm.get(inp["end"])
-    return (a is not None and b is not None and len(a) == 3 and len(b) == 3 and a[0] == b[0]
-            and a[1] != b[1] and a[2] <= b[2])
-
-
-def _level1(inp):
-    return inp.get("levels") == 1 if inp.get("kind") == "log" else not inp.get("gen_merge", True)
-
-
 def finding_matches(fid, inp, obs, why):
-    if inp.get("kind") not in ("log", "calc") or inp.get("start") is None:
-        return False
-    g, tip, s, e = inp["g"], inp["tip"], inp["start"], inp["end"]
-    if fid == "C25-start-not-linear-leak":
-        # _is_obvious_ancestor answers True although the start revision is not on the left-hand
-        # history of the end revision: the end is open, or both are merged revisions with the
-        # same base revno but on different branches.  Reverse direction, level 1.
-        if "_StartNotLinearAncestor" not in (why or "") or inp["forward"] or not _level1(inp):
-            return False
-        e2 = e if e is not None else tip
-        if e2 is None or s in daglib.lefthand(g, e2):
-            return False
-        return e is None or _same_base_different_branch(inp)
-    if fid == "C25-open-end-valueerror":
-        # graph.is_ancestor(start, None): an open-ended range whose start is given, on the
-        # delayed-graph path, with a merge revision on the walked left-hand history
-        return "ValueError" in (why or "") and e is None
+    if fid == "C25-forward-renamed-file":
+        # forward per-file log of a file that was renamed: the path is looked up in the OLDEST
+        # revision of the view (per-file graph: nothing is listed; delta matching: NoSuchFile)
+        return (inp.get("kind") == "file" and inp["forward"] and inp["target"] == "f"
+                and any(ev[0] == "ren" for ev in inp["events"]))
     return False
 
 
 def nontrivial(inp, obs):
+    if inp["kind"] == "file":
+        return any(ev[0] == "ren" for ev in inp["events"])
     return inp["kind"] != "rbd" and any(len(ps) > 1 for ps in inp["g"])
 
 
@@ -404,6 +489,9 @@ def distribution(inputs, observations):
         d["kinds"][i["kind"]] = d["kinds"].get(i["kind"], 0) + 1
         if i["kind"] == "rbd":
             d["rbd_wellformed"] += _wf_depths([x[1] for x in i["l"]])
+            continue
+        if i["kind"] == "file":
+            d["file_renames"] = d.get("file_renames", 0) + sum(ev[0] == "ren" for ev in i["events"])
             continue
         key = str(i["g"])
         if key not in seen:
